@@ -229,6 +229,7 @@ class BitMaskedForm(_FormMethods, Form):
         m = _lib.rc(_lib.L.akp_index_str2form(cast_string(state[3])))
         self._h = _lib.ptr(_lib.L.akp_bitmaskedform_new(hi, pk, pv, n, fk, m, _state_form(state[4]),
                                                         int(cast_bool(state[5])), int(cast_bool(state[6]))))
+        INSTANCES.add(self)
 
 
 @_ext
@@ -256,6 +257,7 @@ class ByteMaskedForm(_FormMethods, Form):
         m = _lib.rc(_lib.L.akp_index_str2form(cast_string(state[3])))
         self._h = _lib.ptr(_lib.L.akp_bytemaskedform_new(hi, pk, pv, n, fk, m, _state_form(state[4]),
                                                          int(cast_bool(state[5]))))
+        INSTANCES.add(self)
 
 
 @_ext
@@ -272,6 +274,7 @@ class EmptyForm(_FormMethods, Form):
     def __setstate__(self, state):
         hi, pk, pv, n, fk = _state_common(state, "EmptyForm")
         self._h = _lib.ptr(_lib.L.akp_emptyform_new(hi, pk, pv, n, fk))
+        INSTANCES.add(self)
 
 
 def _make_indexedform(name, isoption):
@@ -289,6 +292,7 @@ def _make_indexedform(name, isoption):
         hi, pk, pv, n, fk = _state_common(state, name)
         i = _lib.rc(_lib.L.akp_index_str2form(cast_string(state[3])))
         self._h = _lib.ptr(_lib.L.akp_indexedform_new(hi, pk, pv, n, fk, i, _state_form(state[4]), isoption))
+        INSTANCES.add(self)
 
     ns = {"__slots__": (), "__init__": __init__, "__module__": "awkward._ext", "index": _indexform(b"index"),
           "content": property(_content), "__getstate__": __getstate__, "__setstate__": __setstate__}
@@ -324,6 +328,7 @@ class ListForm(_FormMethods, Form):
         a = _lib.rc(_lib.L.akp_index_str2form(cast_string(state[3])))
         b = _lib.rc(_lib.L.akp_index_str2form(cast_string(state[4])))
         self._h = _lib.ptr(_lib.L.akp_listform_new(hi, pk, pv, n, fk, a, b, _state_form(state[5])))
+        INSTANCES.add(self)
 
 
 @_ext
@@ -348,6 +353,7 @@ class ListOffsetForm(_FormMethods, Form):
         hi, pk, pv, n, fk = _state_common(state, "ListOffsetForm")
         o = _lib.rc(_lib.L.akp_index_str2form(cast_string(state[3])))
         self._h = _lib.ptr(_lib.L.akp_listoffsetform_new(hi, pk, pv, n, fk, o, _state_form(state[4])))
+        INSTANCES.add(self)
 
 
 def _int_vector(obj, what):
@@ -405,6 +411,7 @@ class NumpyForm(_FormMethods, Form):
         inner_shape = [cast_int64(x) for x in state[3]]
         self._h = _lib.ptr(_lib.L.akp_numpyform_new(hi, pk, pv, n, fk, _lib.ci64s(inner_shape), len(inner_shape),
                                                     itemsize, format))
+        INSTANCES.add(self)
 
 
 @_ext
@@ -526,6 +533,7 @@ class RecordForm(_FormMethods, Form):
         handles = [_state_form(x) for x in keep]
         self._h = _lib.ptr(_lib.L.akp_recordform_new2(hi, pk, pv, n, fk, _lib.cptrs(handles), len(handles),
                                                       ckeys, nkeys))
+        INSTANCES.add(self)
 
 
 @_ext
@@ -549,6 +557,7 @@ class RegularForm(_FormMethods, Form):
         hi, pk, pv, n, fk = _state_common(state, "RegularForm")
         self._h = _lib.ptr(_lib.L.akp_regularform_new(hi, pk, pv, n, fk, _state_form(state[3]),
                                                       cast_int64(state[4])))
+        INSTANCES.add(self)
 
 
 @_ext
@@ -590,6 +599,7 @@ class UnionForm(_FormMethods, Form):
         t = _lib.rc(_lib.L.akp_index_str2form(cast_string(state[3])))
         i = _lib.rc(_lib.L.akp_index_str2form(cast_string(state[4])))
         self._h = _lib.ptr(_lib.L.akp_unionform_new(hi, pk, pv, n, fk, t, i, _lib.cptrs(handles), len(handles)))
+        INSTANCES.add(self)
 
 
 @_ext
@@ -610,6 +620,7 @@ class UnmaskedForm(_FormMethods, Form):
     def __setstate__(self, state):
         hi, pk, pv, n, fk = _state_common(state, "UnmaskedForm")
         self._h = _lib.ptr(_lib.L.akp_unmaskedform_new(hi, pk, pv, n, fk, _state_form(state[3])))
+        INSTANCES.add(self)
 
 
 @_ext
@@ -638,6 +649,7 @@ class VirtualForm(_FormMethods, Form):
         if state[3] is not None:
             fh = _state_form(state[3])
         self._h = _lib.ptr(_lib.L.akp_virtualform_new(hi, pk, pv, n, fk, fh, int(cast_bool(state[4]))))
+        INSTANCES.add(self)
 
 
 Form.__module__ = "awkward._ext"
